@@ -50,7 +50,8 @@ def inventory(crates):
                     t = b["t"]
                     if t.get("k") == "call" and isinstance(t.get("f"), dict) and "decl" in t["f"]:
                         callees.add(items[t["f"]["decl"]]["path"])
-                inv["fns"][f["path"]] = [name, owner, json.dumps(sig), sorted(callees)]
+                qn = ("%s::%s" % (owner, it.get("name"))) if it.get("impl_self") is not None else f["path"]
+                inv["fns"][f["path"]] = [name, owner, json.dumps(sig), sorted(callees), qn]
     return inv
 
 
@@ -89,6 +90,12 @@ def compute(crates):
         # the owner may itself have been moved/renamed
         owners = {owner} | {n for n, o in out.items() if o == owner}
         c = [q for q, e2 in new.items() if e2[0] == cr and e2[1] in owners and _same_sig(sig, e2[2], out) and q not in out]
+        if not c:
+            # an associated function turned into a free function (or moved to another impl) of the same crate
+            def sim0(q):
+                b2 = set(new[q][3]) if len(new[q]) > 3 else set()
+                return len(body & b2) / float(len(body | b2) or 1)
+            c = [q for q, e2 in new.items() if e2[0] == cr and _same_sig(sig, e2[2], out) and q not in out and body and sim0(q) >= 0.5]
         if len(c) > 1 and body:
             # several renamed functions share a signature: the body (set of callees) decides, if clearly
             def sim(q):
